@@ -45,6 +45,14 @@ Readings (where the property's words leave a choice, the one under which the rep
   Key-signature columns are not part of "onsets, durations and pitches": that they come back (repaired code,
   fixes/C05-10) is compared with the model and proved of it, not judged by the oracle; an array with such columns must
   be ACCEPTED ('inverse raised').
+* "a tie chain is one row ... whose onset and duration in divisions equal the timeline values" (round 6, seed C05-k): the
+  duration of the row is the SUM of the durations of the members of the chain (anchor: "their summed duration"; the sounding
+  time), and the beat / quarter durations are the maps' values between the onset and onset + that sum.  For a chain without
+  gaps that is the span to the end of its last member; for a chain whose members are not adjacent on the timeline (a tie
+  over a first ending into the second, links set by hand) it is NOT the span.  Generated chains run forward in time
+  (a member never starts before the previous one ends); overlapping members are not generated.
+* tied RESTS (links set by hand; no importer makes them): every Rest keeps its row (Part.rests: "all rest objects"), the
+  duration of a rest that has a tie_next is the chain sum, as for notes.
 * score-level tables: only onset_div, duration_div and divs_pq are rescaled to the common divisions; the metrical columns
   stay in the divisions of the row's own part (C05.merged_metrical_columns_in_part_divisions); model and oracle follow
   the code.
@@ -62,7 +70,8 @@ DRIVER = "drv_c05"
 PROPS = ["PartituraModel.Props.C05", "PartituraModel.Props.C05Compose", "PartituraModel.Props.C05Collapse",
          "PartituraModel.Props.C05Back", "PartituraModel.Props.C05Ts", "PartituraModel.Props.C05Tables",
          "PartituraModel.Props.C05Columns", "PartituraModel.Props.C05San", "PartituraModel.Props.C05Stored",
-         "PartituraModel.Props.C05StoredScore", "PartituraModel.Props.C05Order", "PartituraModel.Props.C05TsStored"]
+         "PartituraModel.Props.C05StoredScore", "PartituraModel.Props.C05Order", "PartituraModel.Props.C05TsStored",
+         "PartituraModel.Props.C05Tie"]
 TRUSTED = [
     "the timeline reads that describe a part to the model (property C01): len(part._points), first/last point, "
     "_quarter_times/_quarter_durations, iter_all(TimeSignature | KeySignature | Measure) with their start/end times, "
@@ -104,6 +113,9 @@ TRUSTED = [
     "measure (to the bar line or the end of the part) and of the time maps only the pickup rule are modelled (C11 / C02 "
     "own the rest); the float arithmetic of anacrusis_divs (float32 x int64 -> binary64, float32 x Python int -> float32) is "
     "modelled by exact rationals and half-even rounding (repaired rule, fixes/C05-9): they agree unless the noise reaches 1/2",
+    "tie chains: tie_next / tie_prev are read off the description (indices); GenericNote.duration_tied and end_tied.t of the "
+    "real objects are compared with the model's durationTied / endTied on every generated part (stream `tied`); chains that "
+    "run backwards in time or overlap are not generated (span_is_sum_plus_gaps holds for them all the same)",
     "isinstance dispatch of Python: the harness tells the model the kind of the argument (Part, PartGroup, Score, list, "
     "structured / plain ndarray, other); PerformedPart / Performance arguments belong to other properties",
 ]
@@ -159,7 +171,12 @@ RULE = ("generated parts (explicit measures, optional pickup, time/key signature
         "format applied by Python against the model.  Round 6: every score / group / list / rest-list / collapsed table that "
         "comes back is compared a second time with tolerance 0 against the stored-value model (counts by entry point, "
         "nesting, lcm exceeding every part, rests actually merged: features stored_*), and so is the table that comes back "
-        "from every `invx` array (`invxf`).  distinct = distinct request text; non-trivial = at least one row compared")
+        "from every `invx` array (`invxf`).  Tie chains WITH GAPS (seed C05-k): 40 % of the parts hold "
+        "ties over 1-3 unrelated notes / rests of the voice (the first ending that does not continue the tie) and / or one "
+        "link set by hand between non-adjacent notes of different voices, both exhaustive-option parts of every run do, the "
+        "rest-array parts may tie two non-adjacent rests; corpus/C05/23-tie-over-first-ending.json; features tie_chain_with_gap, "
+        "tie_chain_gap_other_voice, tied_rests_with_gap, stored_tied_span_exceeds_sum; stream `tied` (duration_tied and "
+        "end_tied.t of every timed object against Model/NoteArrayTie.lean).  distinct = distinct request text; non-trivial = at least one row compared")
 LEVEL_TEXT = ("Lean 4 theorems over an executable model of the table construction (tie chains, voice/staff replacement, "
               "two-pass sort, lcm rescaling, id prefixing, rest collapsing, entry-point dispatch, inverse construction incl. "
               "when the onsets are shifted, where the pickup measure ends and which quarter / beat onsets come back), "
@@ -184,7 +201,10 @@ LEVEL_TEXT = ("Lean 4 theorems over an executable model of the table constructio
               "binary32 rounding is monotone (all rationals), the beat map strictly increasing (C02), so the table is in "
               "timeline order except inside groups of rows whose stored onsets coincide (table_order_follows_the_timeline).  "
               "The inverse construction is one function over a part table too: onsets / durations / pitches and the time- "
-              "and key-signature columns come back in the table as numpy stores it (Props/C05TsStored.lean, stream invxf).")
+              "and key-signature columns come back in the table as numpy stores it (Props/C05TsStored.lean, stream invxf).  "
+              "Tie chains with gaps (Props/C05Tie.lean): the duration cell is the summed duration of the chain, span = sum + "
+              "the silence inside the chain for every chain, and the sum is the span (end_tied - start) exactly when a "
+              "forward chain is contiguous.")
 
 FLOATCOLS = ("onset_beat", "duration_beat", "onset_quarter", "duration_quarter")
 RTOL = 2.0 ** -20
@@ -1000,6 +1020,31 @@ def check_collapsed(na, part, exp, fails):
                 rid, dd, float(q[1] - q[0]), float(r["duration_quarter"])))
 
 
+def tied_obs(ev, pd, part, wire):
+    """stream `tied`: GenericNote.duration_tied and end_tied.t of every timed object of the description, as the real
+    objects give them, against Model/NoteArrayTie.lean (the SUM along the chain and the END of its last member: equal up
+    to the onset only when the chain has no gap, C05.sum_eq_span_iff_contiguous)"""
+    objs = {}
+    for o in timeline(part):
+        objs.setdefault(o.id, o)
+    if any(n["id"] not in objs for n in pd["notes"]) or len(objs) != len(pd["notes"]):
+        return
+    out = []
+    for n in pd["notes"]:
+        o = objs[n["id"]]
+        try:
+            dt, et = int(o.duration_tied), int(o.end_tied.t)
+        except Exception:
+            dt = et = None
+        out.append(W.f_tuple(W.s(n["id"]), W.f_opt(W.f_int, dt), W.f_opt(W.f_int, et)))
+        if n.get("tie"):
+            ev.info["tied_links"] = ev.info.get("tied_links", 0) + 1
+            if dt is not None and et - int(o.start.t) != dt:
+                ev.info["tied_span_exceeds_sum"] = ev.info.get("tied_span_exceeds_sum", 0) + 1
+    ev.requests.append("tied " + wire)
+    ev.impl.append(W.f_list(lambda x: x, out))
+
+
 def lcm_list(xs):
     out = 1
     for x in xs:
@@ -1142,6 +1187,7 @@ def evaluate(d):
                 fails.append("part raised: without options raised %s: %s" % (type(e0).__name__, str(e0)[:200]))
             elif list(na0.dtype.names) != expected_names(o0, False):
                 fails.append("part columns: without options the table has %s, expected %s" % (list(na0.dtype.names), expected_names(o0, False)))
+            tied_obs(ev, pd, part, wire0)
         if G.fingerprint_part(part) != fp0:
             fails.append("part frame: note_array modified the part")
         ev.key = str(hash("|".join(ev.requests))) if nrows else None
@@ -1309,6 +1355,7 @@ def evaluate(d):
                 fails.append("rests raised: without options raised %s: %s" % (type(e0).__name__, str(e0)[:200]))
             elif list(na0.dtype.names) != expected_names(o0, False):
                 fails.append("rests columns: without options the table has %s" % (list(na0.dtype.names),))
+            tied_obs(ev, pd, part, wire0)
         if G.fingerprint_part(part) != fp0:
             fails.append("rests frame: rest_array modified the part")
         ev.key = str(hash("|".join(ev.requests))) if nrows else None
@@ -2272,7 +2319,7 @@ def distribution(descs, results):
     # round 6: the streams that compare score-level / list / collapsed tables with tolerance 0, by shape
     for r in results:
         for k, v in (r.get("info") or {}).items():
-            if k.startswith(("scoref", "restsfc", "restlistf", "invxf")):
+            if k.startswith(("scoref", "restsfc", "restlistf", "invxf", "tied_")):
                 feats["stored_" + k] += v
     try:
         import translate_c05 as T5
